@@ -4,7 +4,7 @@
    notification begins after unsubscribe() returned is FALSE of the code as it stands for the one
    notification whose snapshot was taken before (known finding F3, reproduced by the model); the
    lifecycle over whole histories is decided by engine L and the C09 monitor with that class. *)
-From RS Require Import Base Channel Pipeline Script World Hist WorldRegistry WorldSids WorldRelease.
+From RS Require Import Base Channel Pipeline Script World Hist WorldRegistry WorldSids WorldRelease WorldRegistered.
 
 Section C09.
 Context {State : Type}.
@@ -62,6 +62,22 @@ Theorem C09_released_exactly_once : forall (cfg : wconfig (State := State)) redu
   tot (c_rel sid) (w_hist w) + live sid (w_subs w) pc = tot (c_ret sid) (w_hist w) /\
   tot (c_ret sid) (w_hist w) <= 1.
 Proof. intros cfg reducers mws progs w sid pc L D R G. exact (released_exactly_once cfg reducers mws progs w sid pc L D R G). Qed.
+
+(* "registered before an action is dispatched and stays registered ... is notified of that action"
+   (WorldRegistered.v, every program and schedule): a snapshot contains every identifier whose
+   registration call had returned and for which no unsubscribing call (unsubscribe, or the
+   iterator calls that release an ended iterator) had been invoked when it was taken; and until
+   the shutdown release is over the registry itself holds every such identifier - so nobody else's
+   unsubscribe, and nothing but the shutdown, ever removes it ("other subscribers are unaffected") *)
+Theorem C09_notified_while_registered : forall (cfg : wconfig (State := State)) reducers mws progs w h2 a s snap h1 sid,
+  length progs <= 100 -> reachable cfg reducers mws progs w ->
+  w_hist w = h2 ++ ESnapshot a s snap :: h1 -> reg_live sid h1 = true -> In sid (ids snap).
+Proof. intros. eapply registered_in_snapshot; eauto. Qed.
+
+Theorem C09_registry_keeps_registered : forall (cfg : wconfig (State := State)) reducers mws progs w sid,
+  length progs <= 100 -> reachable cfg reducers mws progs w -> reg_live sid (w_hist w) = true ->
+  In sid (ids (w_subs w)) \/ get_thread (w_threads w) reducer_tid = Some (TReducer RDone).
+Proof. intros. eapply registered_in_registry; eauto. Qed.
 End C09.
 
 Print Assumptions C09_registry.
@@ -69,3 +85,5 @@ Print Assumptions C09_unsubscribe_again.
 Print Assumptions C09_unsubscribe_direct.
 Print Assumptions C09_registry_unique.
 Print Assumptions C09_released_exactly_once.
+Print Assumptions C09_notified_while_registered.
+Print Assumptions C09_registry_keeps_registered.
